@@ -229,9 +229,23 @@ func (c *Ctx) finalHeader(fa *FnAnalysis, s *State, addr ssa.Value) (parts []seq
 	return ps, true, ok
 }
 
+// entryHeader: the header the mutator works on - the one found at entry, or,
+// in concurrent mode, the one found when the lock was acquired.
 func (c *Ctx) entryHeader(fn *ssa.Function) *Term {
 	p0 := c.eng.tt.mk(Term{K: "P", N: 0, S: fn.Params[0].Name()})
-	return c.eng.tt.mk(Term{K: "L", A: p0, N: 0, S: "HDR"})
+	ep := 0
+	if c.concurrent {
+		fa := c.eng.analyze(fn, nil)
+		for _, lk := range c.findCalls(fn, "(*stack).lock") {
+			k := instrIndex(lk) + 1
+			if k < len(lk.Block().Instrs) {
+				if ss := fa.statesBefore(lk.Block().Instrs[k]); len(ss) > 0 {
+					ep = ss[0].locEpoch("HDR")
+				}
+			}
+		}
+	}
+	return c.eng.tt.mk(Term{K: "L", A: p0, N: ep, S: "HDR"})
 }
 
 // elemOf: t is the element h[k] (a load of slot k of header h), for some k equal to want.
